@@ -68,6 +68,7 @@ TOL_NODE = 1e-12        # relative to r + h
 TOL_T = 1e-10
 RIGID_SCALE = {'cheap': 2e-1, 'medium': 3e-2, 'expensive': 5e-3}
 KINDS = ('cheap', 'medium', 'expensive')
+T_FLOOR = 0.05          # rigid-motion backstop judged where at least this fraction is transmitted
 LEN_UNITS = ('mm', 'cm', 'm')
 NEAR_AXIS = 1.0 / 64    # the axial-offset leak eps |b.a| / tilt can exceed 64 eps (|p-b|+r+h) only below this angle
 BIG_JUDGE_EVERY = 40    # in-situ beam_intersection calls judged inside the >2e7 case
@@ -1233,7 +1234,17 @@ def transmission_case(rng, st, mods, i, tier):
         if m1 is None or other is None or m1['sub'] is not None:
             continue
         rel = np.abs(other['T'] - m1['T']) / np.maximum(m1['T'], 1e-300)
-        worst = float(np.max(rel))
+        # the accuracy scales are those of moderately absorbing samples: where less than
+        # T_FLOOR of the intensity gets through, the relative accuracy of a fixed rule is not
+        # bounded by them (reported, not judged)
+        judged = m1['T'] >= T_FLOOR
+        ctx.count(f'undecided:{name}_strongly_absorbing', int(np.count_nonzero(~judged)))
+        if np.any(~judged):
+            ctx.dev(f'transmission {name} rel. change where T < {T_FLOOR:g} (reported only) [{kind}]',
+                    float(np.max(rel[~judged])))
+        if not np.any(judged):
+            continue
+        worst = float(np.max(rel[judged]))
         ctx.event(f'transmission.{name}')
         ctx.dev(f'transmission {name} rel. change [{kind}]', worst)
         if not worst <= RIGID_SCALE[kind]:
